@@ -353,6 +353,48 @@ func init() {
 					}
 					judgeProgram(c, prog, data, "failing-cond", true)
 				}})
+			// (3b) long chains of @elseif and deep nests: the k-th of n branches is the first truthy one; conditions behind it are
+			// not evaluated (the tracer log says which were)
+			chainSizes := []int{15, 16, 17, 63, 64, 65, 127, 128, 129, 255, 256, 300}
+			secs = append(secs, core.Section{Name: "long-chains-and-deep-nests", Exhaustive: true, N: len(chainSizes) * 4,
+				Run: func(c *core.Ctx, i int) {
+					n := chainSizes[i%len(chainSizes)]
+					variant := i / len(chainSizes)
+					data := map[string]model.Value{"k": model.Int(int64(n - 1))}
+					tr := func(e model.Expr, id int) model.Expr {
+						return model.Call{X: e, Name: "tr", Args: []model.Expr{model.Lit{V: model.Int(int64(id))}}}
+					}
+					var prog []model.Stmt
+					switch variant {
+					case 0, 1: // one chain; the chosen branch is the last but one (0) or none, so the @else (1)
+						if variant == 1 {
+							data["k"] = model.Int(int64(n + 5))
+						}
+						st := model.If{Else: []model.Stmt{model.Text{S: "[else]"}}}
+						for b := 0; b < n; b++ {
+							st.Conds = append(st.Conds, tr(model.Binary{Op: "==", L: model.Var{Name: "k"}, R: model.Lit{V: model.Int(int64(b))}}, b))
+							st.Bodies = append(st.Bodies, []model.Stmt{model.Text{S: fmt.Sprintf("[branch %d]", b)}})
+						}
+						// a failing condition right behind the chosen branch
+						if variant == 0 {
+							st.Conds = append(st.Conds, model.Var{Name: "undefinedName"})
+							st.Bodies = append(st.Bodies, []model.Stmt{model.Text{S: "never"}})
+						}
+						prog = []model.Stmt{model.Text{S: "pre|"}, st, model.Text{S: "|post"}}
+					default: // n @if blocks inside one another, in the body (2) or in the @else (3) of the outer one
+						var inner []model.Stmt = []model.Stmt{model.Text{S: "innermost"}}
+						for d := n - 1; d >= 0; d-- {
+							cond := tr(model.Binary{Op: ">", L: model.Var{Name: "k"}, R: model.Lit{V: model.Int(int64(d - 1))}}, d)
+							if variant == 2 {
+								inner = []model.Stmt{model.Text{S: fmt.Sprintf("<%d>", d)}, model.If{Conds: []model.Expr{cond}, Bodies: [][]model.Stmt{inner}, Else: []model.Stmt{model.Text{S: "no"}}}, model.Text{S: fmt.Sprintf("</%d>", d)}}
+							} else {
+								inner = []model.Stmt{model.Text{S: fmt.Sprintf("<%d>", d)}, model.If{Conds: []model.Expr{model.Unary{Op: "!", X: model.Paren{X: cond}}}, Bodies: [][]model.Stmt{{model.Text{S: "no"}}}, Else: inner}, model.Text{S: fmt.Sprintf("</%d>", d)}}
+							}
+						}
+						prog = inner
+					}
+					judgeProgram(c, prog, data, "long-chain", true)
+				}})
 			// (4) ternary over the whole table, arms traced, and failing arms
 			secs = append(secs, core.Section{Name: "ternary", Exhaustive: true, N: len(condTable) * 2 * 7,
 				Run: func(c *core.Ctx, i int) {
